@@ -1099,12 +1099,13 @@ impl ConfigState {
             .fingerprint()
             .map_err(StateError::AddCertificate)?;
 
-        let entry = self.certificates.entry(add.address.into()).or_default();
-
         let mut add = add.clone();
         add.certificate
             .apply_overriding_names()
             .map_err(StateError::AddCertificate)?;
+
+        // only a valid certificate may create the bucket of its address
+        let entry = self.certificates.entry(add.address.into()).or_default();
 
         if entry.contains_key(&fingerprint) {
             info!(
